@@ -94,7 +94,7 @@ class Fn:
     """translation context of one function"""
 
     def __init__(self, node, sigs, method=False, floats=False, numpy=(), graph=False, objects=(), coding=False, repair=False,
-                 itertools=(), score=False, collections=(), inplace=(), matrix=False, capacity=False):
+                 itertools=(), score=False, collections=(), inplace=(), matrix=False, capacity=False, shuffle=False):
         self.node = node
         self.sigs = sigs                      # name -> (params, {param: default ast})
         self.method = method                  # a method: `self.x` is the variable "self.x"; attributes read become parameters
@@ -109,6 +109,7 @@ class Fn:
         self.score = score                    # target MiniPyS.v (combinations, union1d, unique, intersect1d, argmax, max, Counter ...)
         self.collections = set(collections)   # names imported from collections (Counter)
         self.inplace = set(inplace)           # parameters the function is documented to update in place and hands back
+        self.shuffle = shuffle                # target MiniPyD.v (a[:, j] = v, the row-shuffle statement, external random.seed)
         self.capacity = capacity              # target MiniPyC.v (floats, float arrays, median, the random stream, external log2 / pow)
         self.matrix = matrix                  # target MiniPyM.v (shape[1], min, set(list) | set(list), list(set) external, fancy stores)
         self.params = [a.arg for a in node.args.args]
@@ -574,6 +575,10 @@ class Fn:
         if self.numpy and isinstance(t, ast.Tuple) and len(t.elts) == 2 and isinstance(t.elts[0], ast.Name) \
                 and isinstance(t.elts[1], ast.Tuple) and all(isinstance(x, ast.Name) for x in t.elts[1].elts):
             return "(TPair %s %s)" % (qs(t.elts[0].id), coq_list([qs(x.id) for x in t.elts[1].elts]))
+        if self.shuffle and isinstance(t, ast.Subscript) and isinstance(t.value, ast.Name) and isinstance(t.slice, ast.Tuple) \
+                and len(t.slice.elts) == 2 and isinstance(t.slice.elts[0], ast.Slice) and t.slice.elts[0].lower is None \
+                and t.slice.elts[0].upper is None and t.slice.elts[0].step is None and not isinstance(t.slice.elts[1], ast.Slice):
+            return "(TColumn %s %s)" % (qs(t.value.id), self.expr(t.slice.elts[1]))
         if self.graph and isinstance(t, ast.Subscript) and isinstance(t.value, ast.Name) and isinstance(t.slice, ast.Tuple) \
                 and len(t.slice.elts) == 2:
             return "(TIndex2 %s %s %s)" % (qs(t.value.id), self.expr(t.slice.elts[0]), self.expr(t.slice.elts[1]))
@@ -595,6 +600,14 @@ class Fn:
         return acc
 
     def stmt(self, s):
+        if self.shuffle and isinstance(s, ast.Expr) and isinstance(s.value, ast.Call) and isinstance(s.value.func, ast.Name) \
+                and s.value.func.id == "__shuffle_row__":
+            return "(SShuffleRow %s %s)" % (qs(s.value.args[0].id), self.expr(s.value.args[1]))
+        if self.shuffle and isinstance(s, ast.Expr) and isinstance(s.value, ast.Call) and isinstance(s.value.func, ast.Attribute) \
+                and s.value.func.attr == "seed" and isinstance(s.value.func.value, ast.Name) and s.value.func.value.id == "random" \
+                and "random" in self.numpy and "random" not in self.assigned and len(s.value.args) == 1 and not s.value.keywords:
+            # numpy.random.seed(x): the generator's state is not modelled, but the call may raise (a seed NumPy rejects)
+            return "(SExpr (ECall %s [%s]))" % (qs("__seed__"), self.expr(s.value.args[0]))
         if isinstance(s, ast.Expr):
             v = s.value
             if isinstance(v, ast.Constant) and isinstance(v.value, str):
@@ -1377,6 +1390,90 @@ def generate_capacity(repo, out_path):
              "Definition capacity_module : module :=\n %s.\n" % coq_list(["(%s, %s_def)" % (qs("approximate_capacity"), "approximate_capacity")])]
     open(out_path, "w").write("\n".join(parts))
     return CAPACITY_FUNCS
+
+
+SHUFFLE_FUNCS = ["create_random_shuffles"]
+
+
+def _fold_row_shuffles(fdef, numpy_names):
+    """card = a[i]; random.shuffle(card); a[i] = card  -- a row VIEW shuffled in place and written back -- becomes ONE synthetic
+    statement __shuffle_row__(a, i).  In Python `card` aliases row i of `a` (the write-back stores the row into itself); with copy-in /
+    copy-out the final `a` is the same, PROVIDED the three statements are adjacent, `i` is a name, and `card` occurs nowhere else in
+    the function (it is dead after the write-back).  Anything else is left alone (and then refused by the aliasing check)."""
+    if "random" not in numpy_names:
+        return
+    uses = {}
+    for n in ast.walk(fdef):
+        if isinstance(n, ast.Name):
+            uses[n.id] = uses.get(n.id, 0) + 1
+    for node in ast.walk(fdef):
+        for fld in ("body", "orelse"):
+            blk = getattr(node, fld, None)
+            if not (isinstance(blk, list) and blk and isinstance(blk[0], ast.stmt)):
+                continue
+            i = 0
+            while i + 2 < len(blk):
+                a, b, c = blk[i], blk[i + 1], blk[i + 2]
+                ok = isinstance(a, ast.Assign) and len(a.targets) == 1 and isinstance(a.targets[0], ast.Name) \
+                    and isinstance(a.value, ast.Subscript) and isinstance(a.value.value, ast.Name) and isinstance(a.value.slice, ast.Name) \
+                    and isinstance(b, ast.Expr) and isinstance(b.value, ast.Call) and isinstance(b.value.func, ast.Attribute) \
+                    and b.value.func.attr == "shuffle" and isinstance(b.value.func.value, ast.Name) and b.value.func.value.id == "random" \
+                    and len(b.value.args) == 1 and not b.value.keywords and isinstance(b.value.args[0], ast.Name) \
+                    and isinstance(c, ast.Assign) and len(c.targets) == 1 and isinstance(c.targets[0], ast.Subscript) \
+                    and isinstance(c.targets[0].value, ast.Name) and isinstance(c.targets[0].slice, ast.Name) and isinstance(c.value, ast.Name)
+                if ok:
+                    y, x, idx = a.targets[0].id, a.value.value.id, a.value.slice.id
+                    ok = b.value.args[0].id == y and c.value.id == y and c.targets[0].value.id == x and c.targets[0].slice.id == idx \
+                        and uses.get(y, 0) == 3 and y not in (x, idx) and x != idx
+                if ok:
+                    call = ast.Expr(value=ast.Call(func=ast.Name(id="__shuffle_row__", ctx=ast.Load()),
+                                                   args=[ast.Name(id=x, ctx=ast.Load()), ast.Name(id=idx, ctx=ast.Load())], keywords=[]))
+                    blk[i:i + 3] = [ast.copy_location(call, a)]
+                i += 1
+
+
+def generate_shuffle(repo, out_path):
+    """create_random_shuffles (dsw/spiderweb.py) as a MiniPyD term.  The permutation numpy.random.shuffle applies to each row is the
+    next item of the hidden parameter "__rng__"; numpy.random.seed is the external function "__seed__"."""
+    sp = ast.parse(open(os.path.join(repo, "dsw", "spiderweb.py")).read())
+    names = {}
+    for n in sp.body:
+        if isinstance(n, ast.ImportFrom):
+            for a in n.names:
+                if a.asname is not None:
+                    raise Refuse("import ... as")
+                names.setdefault(n.module, set()).add(a.name)
+        elif isinstance(n, ast.Import):
+            raise Refuse("plain import at module level")
+        elif isinstance(n, (ast.Assign, ast.AugAssign, ast.AnnAssign)):
+            raise Refuse("module-level assignment")
+    defs = [n for n in sp.body if isinstance(n, ast.FunctionDef) and n.name == "create_random_shuffles"]
+    if len(defs) != 1:
+        raise Refuse("function definitions")
+    d = defs[0]
+    for n in ast.walk(d):
+        if isinstance(n, ast.Name) and n.id in ("__rng__", "__shuffle_row__"):
+            raise Refuse("reserved name")
+    a = d.args
+    params = [x.arg for x in a.args]
+    dflt = dict(zip(params[len(params) - len(a.defaults):], a.defaults))
+    sigs = {d.name: (params, dflt)}
+    npn = {"where", "sum", "array", "zeros", "ones", "max", "random"}
+    npnames = npn & names.get("numpy", set())
+    _fold_row_shuffles(d, npnames)
+    f = Fn(d, sigs, numpy=npnames, graph=True, coding=True, repair=True, score=True,
+           itertools=names.get("itertools", set()), collections=names.get("collections", set()), shuffle=True)
+    f.assigned.discard("__shuffle_row__")
+    text = f.translate()
+    head = 'params := [%s]' % "; ".join(qs(p) for p in params)
+    if text.count(head) != 1:
+        raise Refuse("parameter list")
+    text = text.replace(head, 'params := [%s]' % "; ".join(qs(p) for p in params + ["__rng__"]))
+    parts = ["(* GENERATED by harness/translate_minipy.py from %s/dsw/spiderweb.py -- do not edit *)\n"
+             "From DSW Require Import MiniPyD.\nOpen Scope Z_scope.\n" % repo, text,
+             "Definition shuffle_module : module :=\n %s.\n" % coq_list(["(%s, %s_def)" % (qs("create_random_shuffles"), "create_random_shuffles")])]
+    open(out_path, "w").write("\n".join(parts))
+    return SHUFFLE_FUNCS
 
 
 REPAIR_FUNCS = ["path_matching", "repair_dna"]
